@@ -1,4 +1,4 @@
-CONSTANTS SIZES = {2}  TMAX = 3  WMAX = 4  MAXE = 1  MAXW = 2  ITERS = 1  KEYS = {0}  BEFORE = FALSE
+CONSTANTS SIZES = {2}  TMAX = 3  WMAX = 4  MAXE = 1  MAXW = 2  ITERS = 1  KEYS = {0}  BEFORE = FALSE  FIX_F4 = FALSE
 SPECIFICATION Spec
 INVARIANTS C06_LateResult
 CHECK_DEADLOCK FALSE
